@@ -59,6 +59,10 @@ class Terminated(Exception):
     pass
 
 
+class LoopBreak(Terminated):
+    pass
+
+
 class Env(dict):
     def copy(self):
         e = Env(self)
@@ -153,6 +157,8 @@ class Fold:
         return S(n.get("qname") or n.get("name") or "?")
 
     def ev_member(self, n, env):
+        if self.opaque_types and re.search(self.opaque_types, n.get("type") or ""):
+            return S(show(n))
         key = ("field", show(n))
         if key in env:
             return env[key]
@@ -223,10 +229,17 @@ class Fold:
             return (op, self.ev(n["lhs"], env), self.ev(n["rhs"], env))
         a, b = self.ev(n["lhs"], env), self.ev(n["rhs"], env)
         if op in ("<", "<=", ">", ">=", "==", "!="):
-            return (op, a, b)
+            return self.compare(op, a, b)
         if op == ",":
             return b
         return self.arith(op, a, b)
+
+    def compare(self, op, a, b):
+        if getattr(a, "is_number", False) and getattr(b, "is_number", False) and not isinstance(a, (Matrix, tuple)) and not isinstance(b, (Matrix, tuple)):
+            r = {"<": a < b, "<=": a <= b, ">": a > b, ">=": a >= b, "==": sp.Eq(a, b), "!=": sp.Ne(a, b)}[op]
+            if r in (sp.true, sp.false, True, False):
+                return sp.true if r in (sp.true, True) else sp.false
+        return (op, a, b)
 
     def ev_assign(self, n, env):
         op = n["op"]
@@ -240,6 +253,10 @@ class Fold:
 
     def ev_cond(self, n, env):
         c = self.ev(n["cond"], env)
+        if c is sp.true:
+            return self.ev(n["then"], env)
+        if c is sp.false:
+            return self.ev(n["else"], env)
         a, b = self.ev(n["then"], env), self.ev(n["else"], env)
         return self.ite(c, a, b)
 
@@ -370,7 +387,7 @@ class Fold:
             if op in ("()", "[]"):
                 return self.index(args[0], args[1:], n)
             if op in ("<", "<=", ">", ">=", "==", "!="):
-                return (op, args[0], args[1])
+                return self.compare(op, args[0], args[1])
             if op == "<<":
                 return F("shl")(*[self.scalarize(a) for a in args])
             if op in ("++", "--"):
@@ -561,7 +578,7 @@ class Fold:
         elif k == "switch":
             self.do_switch(s, env)
         elif k in ("break", "continue"):
-            raise Terminated()
+            raise LoopBreak()
         elif k == "try":
             self.stmt(s["block"], env)
         elif k in ("null", "label", "attributed"):
@@ -792,6 +809,18 @@ class Fold:
                 groups.append(cur)
             if cur is not None and st is not None:
                 cur["stmts"].append(st)
+        if getattr(c, "is_Integer", False):
+            sel = [g for g in groups if int(c) in [l for l in g["labels"] if isinstance(l, int)]]
+            if not sel:
+                sel = [g for g in groups if "default" in g["labels"]]
+            if sel:
+                start = groups.index(sel[0])
+                for g in groups[start:]:          # fall-through semantics
+                    try:
+                        self.stmts(g["stmts"], env)
+                    except LoopBreak:
+                        return
+            return
         envs = []
         all_term = True
         for g in groups:
@@ -802,11 +831,11 @@ class Fold:
                 self.stmts(g["stmts"], e)
                 all_term = False
                 envs.append(e)
+            except LoopBreak:
+                all_term = False
+                envs.append(e)
             except Terminated:
-                # break also terminates; distinguish: if last stmt is break, env continues
-                if g["stmts"] and g["stmts"][-1].get("k") == "break":
-                    all_term = False
-                    envs.append(e)
+                pass
             del self.guards[mark:]
         has_default = any("default" in g["labels"] for g in groups)
         if not has_default:
